@@ -394,6 +394,41 @@ func verifModelBinaryWrite(w io.Writer, order binary.ByteOrder, data any) error 
 //@ modifies synonymIndexCache.cache[sc], ghost muHeld[addr(sc.m)]
 //@ end
 
+// ---- process-wide state (C10 and every history-quantified property) ----
+// Every package-level variable that code under contract touches - directly or through the callees it is verified
+// together with - is declared here; a function touching any other package-level variable fails its frame:pkgstate
+// obligation (a build, a lookup or a merge must not leave or read traces outside its arguments and these).
+// readonly: never assigned by code under contract (initialised at package init or by the embedding application).
+// a build (C10) is everything reachable from the plugin's constructor; the frame:pkgstate obligation of those functions
+// carries C10
+//@ cone C10 (*ZapPlugin).newWithChunkMode
+//@ pkgstate emptyPostingsList readonly shared sentinel; its pointee is covered by the global invariant sentinelsZero
+//@ pkgstate emptyPostingsIterator readonly shared sentinel, refused as preallocation by Iterator()
+//@ pkgstate emptySynonymsList readonly shared sentinel; its pointee is covered by the global invariant sentinelsZero
+//@ pkgstate emptySynonymsIterator readonly shared sentinel, refused as preallocation by Iterator()
+//@ pkgstate segmentSections readonly section registry, filled by init() through registerSegmentSection
+//@ pkgstate LegacyChunkMode readonly constant-valued variable
+//@ pkgstate ErrChunkSizeZero readonly error value
+//@ pkgstate reflectStaticSizedocValueReader readonly size constant computed at init
+//@ pkgstate reflectStaticSizeSegmentBase readonly size constant computed at init
+//@ pkgstate reflectStaticSizeMetaData readonly size constant computed at init
+//@ pkgstate SizeOfUint64 readonly size constant
+//@ pkgstate SizeOfUint16 readonly size constant
+//@ pkgstate SizeOfString readonly size constant
+//@ pkgstate SizeOfPtr readonly size constant
+//@ pkgstate termSeparatorSplitSlice readonly constant-valued variable
+//@ pkgstate termSeparator readonly constant-valued variable
+//@ pkgstate freqHasLocs1Hit readonly constant-valued variable
+//@ pkgstate ValidateDocFields readonly hook set by the embedding application, only called here
+//@ pkgstate NewSegmentBufferNumResultsFactor readonly sizing knob of the embedding application
+//@ pkgstate NewSegmentBufferNumResultsBump readonly sizing knob of the embedding application
+//@ pkgstate NewSegmentBufferAvgBytesPerDocFactor readonly sizing knob of the embedding application
+//@ pkgstate DefaultFileMergerBufferSize readonly sizing knob of the embedding application
+//@ pkgstate isFieldExcludedFromInvertedTextIndexSection readonly function variable set at package init
+//@ pkgstate invertedTextIndexSectionExclusionChecks readonly list of exclusion checks, appended to by init() of the sections only
+//@ pkgstate visitDocumentCtxPool mutable sync.Pool of visit contexts (ghost protocol poolOwned / poolBalance)
+//@ pkgstate interimPool mutable sync.Pool of builder working memory (reset completeness: clean(...) contracts)
+
 // ---- C07 / C08 / C11: postings list reuse, counts, shared sentinels ----
 
 // The shared empty sentinels are never written: a global invariant, i.e. an implicit pre- and postcondition of
@@ -1485,6 +1520,26 @@ func lemmaSynonymCodeRoundTrip(synonymID, docID uint32) {
 //@ assert persistStoredFieldValues.metaEncode#4 : int($val) == len(storedFieldValues[i])
 //@ assert persistStoredFieldValues.metaEncode#5 : int($val) == len(spf[i])
 //@ loop 1 invariant 0 <= i && i <= len(storedFieldValues) && curr - old(curr) == len(data) - old(len(data)) && curr >= old(curr)
+//@ end
+
+// ---- C01: the builder's counting pass (realloc) and its fill pass (process) agree on what a token contributes ----
+// counting pass, per token of a field: one freq/norm entry and len(tf.Locations) location entries for the token's
+// postings list, and the same amounts towards the two backing arrays
+//@ func (*invertedIndexOpaque).realloc$3
+//@ thin
+//@ tags [C01]
+//@ loop 1 step 0 <= prev(totLocs) && prev(totLocs) <= 0x3fffffffffffffff ==> totLocs == prev(totLocs) + len(tf.Locations) [C01]
+//@ loop 1 step prev(haskey(dict, term)) && prev(base(i.numLocsPerPostingsList) != base(i.numTermsPerPostingsList)) && 0 <= int(pid) && int(pid) < prev(len(i.numLocsPerPostingsList)) && int(pid) < prev(len(i.numTermsPerPostingsList)) && 0 <= prev(i.numLocsPerPostingsList[int(pid)]) && prev(i.numLocsPerPostingsList[int(pid)]) <= 0x3fffffffffffffff && 0 <= prev(i.numTermsPerPostingsList[int(pid)]) && prev(i.numTermsPerPostingsList[int(pid)]) <= 0x3fffffffffffffff ==> i.numLocsPerPostingsList[int(pid)] == prev(i.numLocsPerPostingsList[int(pid)]) + len(tf.Locations) && i.numTermsPerPostingsList[int(pid)] == prev(i.numTermsPerPostingsList[int(pid)]) + 1 [C01]
+//@ end
+
+// fill pass, per token of a field at the end of a document: exactly one freq/norm entry, recording the token's number of
+// locations, and exactly len(tf.Locations) location entries are appended to the token's postings list
+//@ func (*invertedIndexOpaque).process
+//@ thin
+//@ tags [C01]
+//@ loop 3 invariant 0 <= $k && $k <= len(tf.Locations) && len(locs) == entry(len(locs)) + $k [C01]
+//@ loop 2 step 0 <= int(pid) && int(pid) < prev(len(io.FreqNorms)) && prev(len(io.FreqNorms[int(pid)])) <= 0x3fffffffffffff ==> len(io.FreqNorms[int(pid)]) == prev(len(io.FreqNorms[int(pid)])) + 1 && io.FreqNorms[int(pid)][prev(len(io.FreqNorms[int(pid)]))].numLocs == len(tf.Locations) [C01]
+//@ loop 2 step 0 <= int(pid) && int(pid) < prev(len(io.Locs)) && prev(len(io.Locs[int(pid)])) <= 0x3fffffffffffff && len(tf.Locations) > 0 ==> len(io.Locs[int(pid)]) == prev(len(io.Locs[int(pid)])) + len(tf.Locations) [C01]
 //@ end
 
 // ---- C01 / C06: the chunk size is (re)computed for every term before its postings are encoded ----
